@@ -6,4 +6,5 @@ func genMore() {
 	genLockFacts()
 	genFilters()
 	genErrorSites()
+	genBuilderTables()
 }
